@@ -621,3 +621,10 @@ add('C05', 'digit-run-end-of-string-test-off', DIGF, "        if not value.isdig
 add('C05', 'alpha-run-end-test-and', ALPF, "        if not value.isalpha() or pos == len(working_string) - 1:", "        if not value.isalpha() and pos == len(working_string) - 1:", 'fire', 'C05.R21')
 add('C05', 'alpha-run-end-branch-inverted', ALPF, "                if value.isalpha():\n                    end_pos = pos", "                if not value.isalpha():\n                    end_pos = pos", 'fire', 'C05.R21')
 add('C05', 'digit-run-prefix-guard-respelled', DIGF, "                if start_pos !=0:", "                if start_pos != 0:", 'silent')
+
+# ---- mutation sweep (third run): the year kernel ------------------------------------------------------------------------------
+YEARF = 'lib_trainer/detection_rules/year_detection.py'
+add('C05', 'year-fourth-char-test-negated', YEARF, "                if working_string[start_index + 3].isdigit():", "                if not working_string[start_index + 3].isdigit():", 'fire', 'C05.R22')
+add('C05', 'year-position-left-relative', YEARF, "            start_index += start\n", "", 'fire', 'C05.R22')
+add('C05', 'year-prefix-18', YEARF, "year_prefix = ['19','20']", "year_prefix = ['18','20']", 'fire', 'C05.R22')
+add('C05', 'year-position-explicit-sum', YEARF, "            start_index += start\n", "            start_index = start_index + start\n", 'silent')
